@@ -56,7 +56,27 @@ var writeSets = [][]write{
 // prefixes under which every view is also read through Subset(p), and over which Subset(p).Snapshot() views are opened
 // (slices with spare capacity, as prefixes built with append / JoinBytes have: an implementation that appends to the prefix
 // it was given writes into the caller's backing array)
-var subPrefixes = [][]byte{append(make([]byte, 0, 16), 0x10), append(make([]byte, 0, 16), 0x10, 0x11)}
+var subPrefixes = [][]byte{sentinelled(0x10), sentinelled(0x10, 0x11)}
+
+// sentinelled returns a prefix slice of capacity 16 whose spare capacity is filled with 0xAA: whoever is handed the slice
+// may read its len bytes and nothing else is its to write (checked after every use: untouchedBeyondLen)
+func sentinelled(b ...byte) []byte {
+	buf := make([]byte, 16)
+	for i := range buf {
+		buf[i] = 0xAA
+	}
+	copy(buf, b)
+	return buf[:len(b)]
+}
+
+func untouchedBeyondLen(p []byte) bool {
+	for _, c := range p[len(p):cap(p)] {
+		if c != 0xAA {
+			return false
+		}
+	}
+	return true
+}
 
 // view writes (through an open view)
 var viewWrites = []write{{kK, vY}, {kKA, nil}, {kKAB, vE}}
@@ -494,6 +514,16 @@ func restrictKeys(u map[string]bool, p []byte) map[string]bool {
 // the universe below p (addressed relative to p, so the key p itself becomes the zero-length key), ordered scans with the
 // remaining prefixes, and the change set restricted to p.
 func (x *run) checkSubsets(after Op, v *refView, cur content, universe map[string]bool) (reads int) {
+	defer func() {
+		for _, p := range subPrefixes {
+			if !untouchedBeyondLen(p) {
+				x.fail("subset-writes-into-the-callers-prefix-slice", "after %v: %s: reading through Subset(%x) wrote into the spare capacity of the prefix slice it was given (%x): two stores built over one prefix slice would overwrite each other's keys", after, v.desc, p, p[:cap(p)])
+				for i := len(p); i < cap(p); i++ {
+					p[:cap(p)][i] = 0xAA
+				}
+			}
+		}
+	}()
 	for _, p := range subPrefixes {
 		sub := v.handle.Subset(p)
 		want := restrict(cur, p)
@@ -535,6 +565,27 @@ func (x *run) checkSubsets(after Op, v *refView, cur content, universe map[strin
 			it.Release()
 			if strings.Join(gs, ",") != strings.Join(ws, ",") {
 				x.fail("subset-scan-wrong", "after %v: %s Subset(%x).scan(%x) = %v want %v", after, v.desc, p, sp, gs, ws)
+			}
+			// the same scan with the iterator opened first and consumed after point reads through a second Subset(p) handle of
+			// the same view (two handles over one prefix slice, as two stores of one account have): an open iterator is not
+			// disturbed by what other handles look up
+			for _, probe := range [][]byte{{0xff, 0xff, 0xff}} {
+				reads++
+				it := sub.NewIterator(sp)
+				other := v.handle.Subset(p)
+				other.Has(probe)
+				other.Get(probe)
+				var gi []string
+				for it.Next() {
+					if it.Value() == nil {
+						continue
+					}
+					gi = append(gi, fmt.Sprintf("%x=%x", it.Key(), it.Value()))
+				}
+				it.Release()
+				if strings.Join(gi, ",") != strings.Join(ws, ",") {
+					x.fail("subset-scan-disturbed-by-another-handle", "after %v: %s Subset(%x).scan(%x) opened, then Subset(%x).Has/Get(%x) through a second handle, then consumed = %v want %v", after, v.desc, p, sp, p, probe, gi, ws)
+				}
 			}
 		}
 		// the change set of the subset: the view's own writes below p, keys relative to p
